@@ -619,3 +619,17 @@ Lemma hsub_ok_slash sub (pfx : pstr) k topics :
   Forall (fun t => mem_N 47 (pfx ++ t) = true) topics ->
   exists l, handle_subscription sub pfx k topics = Ok l /\ map fst l = map (app pfx) topics.
 Proof. intro F. apply hsub_ok. exact F. Qed.
+
+(* the property's wording: every canonical command *)
+Lemma roundtrip_canonical pfx m :
+  wire_ok (m_payload m) = true -> (m_ack m = 0 \/ m_ack m = 1)%Z ->
+  encode m = line_of m ++ [nl] /\
+  to_mqtt (encode m) = Ok (topic_of m, m_payload m, m_ack m) /\
+  from_mqtt pfx (pfx ++ topic_of m) (m_payload m) (m_ack m) = Ok (Some (line_of m)) /\
+  ((0 < m_ack m)%Z <-> m_ack m = 1%Z).
+Proof.
+  intros W A. pose proof (decode_encode m W) as D.
+  destruct (roundtrip_any pfx (encode m) m (m_payload m) (m_ack m) D) as [T R].
+  rewrite delivered_same in R by exact A.
+  split; [rewrite line_of_body; apply encode_body|]. split; [exact T|]. split; [exact R|lia].
+Qed.
